@@ -329,3 +329,24 @@ func genDag(r *Rng, allowNoOut bool, streamMax int) Dag {
 	}
 	return g
 }
+
+// reconvergingBatch: the DAG contains a whole-stream reader (ParamCombinator) whose source feeds at least one
+// other consumer as well: the shape in which a balanced workflow can deadlock once a stream is longer than
+// the channel buffer (finding F23)
+func (g Dag) reconvergingBatch() bool {
+	for _, n := range g.Nodes {
+		if n.Kind != "pcomb" {
+			continue
+		}
+		others := 0
+		for _, m := range g.Nodes {
+			if m.Name != n.Name && m.PIn == n.PIn {
+				others++
+			}
+		}
+		if others > 0 {
+			return true
+		}
+	}
+	return false
+}
